@@ -62,7 +62,7 @@ def spec_history(env, argv, ops, handoff=False):
         elif kind == 'disable':
             st = False
             out.append(['unit'])
-        elif kind in ('decorate', 'decorate_ghost'):
+        elif kind in ('decorate', 'decorate_ghost', 'decorate_sub'):
             k += 1
             if st is None:
                 st = req
@@ -272,6 +272,12 @@ def kp_sub_cases(tier):
     out.append(dict(how='decorate', prefix=None, env='off', args=['x'], wc=ALL_WC[15]))
     if tier == 'thorough':
         out.append(dict(how='enable', prefix='bench.v2', env='0', args=['a'], wc=ALL_WC[15]))
+    # programs that use the importable decorator themselves (through both import paths) under kernprof, every mode, with and
+    # without the stand-alone switch among the PROGRAM's arguments / in the environment: kernprof has taken the decorator over
+    for mode in (['-l'], ['-b'], [], ['-l', '-b']):
+        for env, args in ((None, []), (None, ['--line-profile']), ('1', []), (None, ['x', '--line_profile'])):
+            out.append(dict(how=None, prefix=None, env=env, args=args, wc=ALL_WC[15], explicit=True, mode=mode))
+    out.append(dict(how='enable', prefix='setup_prof', env=None, args=[], wc=ALL_WC[15], explicit=True, mode=['-l']))
     return out
 
 
@@ -288,6 +294,12 @@ def subops_cases(tier):
         for wc in ALL_WC:
             out.append(dict(env=None, args=[], ops=ops, wc=wc))
     out.append(dict(env='1', args=[], ops=[['disable', None], ['decorate', None], ['enable', None]], wc=ALL_WC[15]))
+    # the decorator imported through both paths (line_profiler.profile, line_profiler.explicit_profiler.profile) in one program
+    for env, ops in (('1', [['decorate', None], ['decorate_sub', None]]), ('1', [['decorate_sub', None], ['decorate', None]]),
+                     (None, [['decorate_sub', None], ['enable', None], ['decorate', None], ['decorate_sub', None]]),
+                     (None, [['enable', None], ['decorate_sub', None], ['disable', None], ['decorate', None]])):
+        for wc in (ALL_WC if tier == 'thorough' else [ALL_WC[15], ALL_WC[9]]):
+            out.append(dict(env=env, args=[], ops=ops, wc=wc))
     # the report options (show_config) and what is in the profiler: a decorated, never-called function without a source file
     shows = [dict(stripzeros=0), dict(stripzeros=0, details=1), dict(details=1, rich=0), dict(sort=0, summarize=0)]
     for ops in ([['enable', None], ['decorate_ghost', None]], [['enable', None], ['decorate_ghost', None], ['decorate', None]]):
@@ -324,14 +336,21 @@ def q_subops(c, o):
 
 
 def kp_sub_ops(c):
+    if not c['how']:
+        return []           # no setup file: nothing happens outside kernprof's take-over
     return ([['enable', c['prefix']]] if c['how'] == 'enable' else []) + [['decorate', None]]
 
 
 def kp_sub_spec(c, o):
     if o['rc'] != 0 or o['obs'] is None or not o['kernprof_out']:
         return 'kernprof run failed rc=%s %s' % (o['rc'], o['stderr'][-200:])
+    if c.get('explicit'):
+        o2 = o['obs2']
+        if not o2 or not (o2['one_object'] and o2['taken_over'] and o2['same_profiler'] and o2['wrapped'] == [True, True]):
+            return ('under kernprof %s: a program using the importable decorator (both import paths) saw %r; demanded: one decorator '
+                    'object, taken over by kernprof, both functions handed to kernprof\'s profiler' % (' '.join(c.get('mode', ['-l'])), o2))
     exp, active, prefix = spec_history(c['env'], ['script.py'] + c['args'], kp_sub_ops(c))
-    if o['obs']['same_h'] != (not active):
+    if c['how'] and o['obs']['same_h'] != (not active):
         return 'decoration in the setup file returned-its-argument = %r, demanded %r' % (o['obs']['same_h'], not active)
     want = expected_seen(c['wc'], prefix, o['ts']) if active else []
     if o['seen'] != want or o['traceback']:
@@ -343,8 +362,9 @@ def q_kp_sub(c, o):
     if o['rc'] != 0 or o['obs'] is None or o['traceback']:
         return '(false, false)'
     argv = core.coq_list([core.coq_str(a) for a in ['script.py'] + c['args']])
+    sames = [core.coq_bool(o['obs']['same_h'])] if c['how'] else []
     return '(sub_case %s %s %s %s %s %s %s)' % (q_ostr(c['env']), argv, q_ops(kp_sub_ops(c)), q_wc(c['wc']), core.coq_str(o['ts']),
-                                               core.coq_list([core.coq_bool(o['obs']['same_h'])]), q_seen(o['seen']))
+                                               core.coq_list(sames), q_seen(o['seen']))
 
 
 # ---- case generation -----------------------------------------------------------------------
@@ -441,7 +461,7 @@ def q_ops(ops):
             out.append('OpEnable %s' % q_ostr(arg))
         elif kind == 'disable':
             out.append('OpDisable')
-        elif kind in ('decorate', 'decorate_ghost'):
+        elif kind in ('decorate', 'decorate_ghost', 'decorate_sub'):
             k += 1
             out.append('OpDecorate (Fn %d)' % k)
         elif kind == 'overwrite':
